@@ -159,6 +159,8 @@ def gen_tree(rng, ctx, flags, hostile, avoid):
             pass            # simplify's own robustness is C08's business
     if flags['avoid'] and X.find_edges(back, env, flags['avoid']):
         return None
+    if flags['avoid'] and flags['target'] == 'c' and any(n[0] == 'call' and len(n) > 4 for _p, n in X.subtrees(back)):
+        return None         # known cgen mechanism (fmod for rebuilt call symbols): hostile slice only
     if flags['target'] == 'c' and not flags['int_power']:
         for _p, n in X.subtrees(back):
             if n[0] == 'pow' and X.static_type_safe(n, env) == 'i4':
@@ -222,6 +224,16 @@ class Judge:
         return out
 
 
+def par_wrap(c):
+    """the child with explicit parentheses (same value); children that cannot carry a parenthesis node stay as is"""
+    if c[0] in ('sum', 'prod', 'quot', 'pow', 'neg'):
+        return ('par', c)
+    if c[0] in ('int', 'real') and X.level(c) == 5 and c[2] != '#py':
+        pos = ('int', -c[1], c[2]) if c[0] == 'int' else ('real', c[1].lstrip().lstrip('-'), c[2])
+        return ('par', ('neg', pos))
+    return c
+
+
 def _is_lit(n):
     return n[0] in ('int', 'real') and n[2] != '#py'
 
@@ -252,19 +264,23 @@ def classify_many(judge, asts, prefix):
         cand = [(i, r, c) for i, (r, c) in enumerate(X.children(node)) if X.children(c) or X.level(c) == 5]
         taken = {n[1] for _p, n in X.subtrees(node) if n[0] == 'var'}
         leaves = {i: leaf_for(node, r, c, env, taken) for i, r, c in cand}
-        keep, drop = [], []
-        for i, _r, _c in cand:
-            v = node
-            for j, _r2, _c2 in cand:
-                if j != i:
-                    v = X.replace_child(v, j, leaves[j])
-            keep.append(v)                                        # only child i left in place
-            drop.append(X.replace_child(node, i, leaves[i]))      # only child i replaced
+        wraps = {i: par_wrap(c) for i, _r, c in cand}          # value-preserving repair: explicit parentheses
+        groups = []
+        for repl in (wraps, leaves):
+            keep, drop = [], []
+            for i, _r, _c in cand:
+                v = node
+                for j, _r2, _c2 in cand:
+                    if j != i:
+                        v = X.replace_child(v, j, repl[j])
+                keep.append(v)                                       # every other child repaired / replaced
+                drop.append(X.replace_child(node, i, repl[i]))      # only child i repaired / replaced
+            groups += keep + drop
         allrep = node
         for i, _r, _c in cand:
             allrep = X.replace_child(allrep, i, leaves[i])
-        plans.append((node, cand, len(variants), len(keep)))
-        variants += keep + drop + [allrep]
+        plans.append((node, cand, len(variants), len(cand)))
+        variants += groups + [allrep]
     vres = judge.judge_asts(variants) if variants else []
     out = []
     for ast, plan in zip(asts, plans):
@@ -283,12 +299,19 @@ def classify_many(judge, asts, prefix):
             key = f'{prefix}:Neg.operand<-minus-prefixed-text:decrement-token'
         if key is None:
             # culprit: the node still fails with only this child in place, or is repaired by replacing only this child
-            for k, (i, r, c) in enumerate(cand):
-                if vres[off + k][0] == 'fail' or vres[off + n + k][0] == 'pass':
-                    role = 'arg' if r.startswith('arg') else r
-                    key = f'{prefix}:{X.kind_of(node)}.{role}<-{X.kind_of(c)}:{TYCLASS[X.static_type_safe(c, env)]}'
+            # culprit child i, in order of evidence strength: (a) the node still fails when every other child carries
+            # explicit parentheses; (b) parenthesising only child i repairs the node; (c), (d) the same two tests with
+            # plain variables instead of parentheses (for children that cannot carry a parenthesis node)
+            tests = [(0, 'fail'), (n, 'pass'), (2 * n, 'fail'), (3 * n, 'pass')]
+            for base, want in tests:
+                for k, (i, r, c) in enumerate(cand):
+                    if vres[off + base + k][0] == want:
+                        role = 'arg' if r.startswith('arg') else r
+                        key = f'{prefix}:{X.kind_of(node)}.{role}<-{X.kind_of(c)}:{TYCLASS[X.static_type_safe(c, env)]}'
+                        break
+                if key is not None:
                     break
-        if key is None and (not cand or vres[off + 2 * n][0] == 'fail'):
+        if key is None and (not cand or vres[off + 4 * n][0] == 'fail'):
             key = f'{prefix}:{X.kind_of(node)}:self:{TYCLASS[X.static_type_safe(node, env)]}'
         if key is None:
             kinds = '+'.join(sorted({X.kind_of(c) for _i, _r, c in cand}))
@@ -433,6 +456,13 @@ def run_case(idx, rng, tier, ctx):
         keys = {}
         for k, it, verdict in failing:
             bump('mismatching_trees')
+            if target == 'c' and 'fmod(' in it['text'] and any(
+                    n[0] == 'call' and n[1] == 'mod' and X.static_type_safe(n, env) == 'i4' and len(n) > 4
+                    for _p, n in X.subtrees(it['ast'])):
+                # cgen chooses fmod() for an integer MOD whose argument contains a call whose function symbol was
+                # rebuilt as a DeferredTypeSymbol (by SubstituteExpressionsMapper / simplify): the result becomes double
+                keys[k] = ('cprint:integer-mod-printed-as-fmod(rebuilt-function-symbol)', {})
+                continue
             if target == 'c' and any(n[0] == 'pow' and X.static_type_safe(n, env) == 'i4'
                                      for _p, n in X.subtrees(it['ast'])):
                 # known mechanism with its own model: cgen prints integer powers as double pow().  Recognised when
@@ -461,6 +491,8 @@ def run_case(idx, rng, tier, ctx):
                        verdict=verdict, compiler_error=judge.batch.first_error.get(2 * k + 1, ''))
             wit['slice'] = 'enumeration' if enum else ('hostile' if hostile else 'main')
             bump('mismatches_in_' + wit['slice'] + '_slice')
+            if wit['slice'] == 'main':
+                bump('main_slice:' + key)
             res['violations'].append({'key': key, 'msg': f'{it["text"]!r} does not denote {refs[k]!r}: {verdict}'[:400],
                                       'witness': wit})
         bump('compiler_batches_total', judge.batch.compiles + (cj.batch.compiles if todo else 0))
